@@ -40,7 +40,7 @@ const MAX_EXP: isize = 4000;
 fn tame<R: Round, const B: Word>(x: &FBig<R, B>) -> bool {
     x.repr().is_finite()
         && x.precision() <= MAX_PREC
-        && x.repr().exponent().abs() <= MAX_EXP
+        && x.repr().exponent().unsigned_abs() <= MAX_EXP as usize
         && x.repr().significand().bit_len() <= 4 * MAX_PREC + 64
 }
 
@@ -268,7 +268,7 @@ where
         "powi" => {
             let x = &ww.p[a];
             let e = op.n.clamp(-40, 40);
-            if !tame(x) || x.precision() == 0 || x.repr().exponent().abs() > 200 {
+            if !tame(x) || x.precision() == 0 || x.repr().exponent().unsigned_abs() > 200 {
                 return env.skip();
             }
             ww.p[dst] = match form % 2 {
@@ -420,7 +420,7 @@ where
                 }
                 7 => x.clone() * Sign::Positive,
                 _ => {
-                    if x.precision() == 0 || x.digits() > x.precision() || x.repr().exponent().abs() > 300 {
+                    if x.precision() == 0 || x.digits() > x.precision() || x.repr().exponent().unsigned_abs() > 300 {
                         return env.skip();
                     }
                     // x + 0 and x * 1 at the same precision are exact
@@ -476,7 +476,7 @@ where
         }
         "str" => {
             let x = &ww.p[a];
-            if !tame(x) || x.repr().exponent().abs() > 300 {
+            if !tame(x) || x.repr().exponent().unsigned_abs() > 300 {
                 return env.skip();
             }
             let s = match form % 4 {
@@ -495,7 +495,7 @@ where
         }
         "fmt" => {
             let x = &ww.p[a];
-            if !tame(x) || x.repr().exponent().abs() > 300 {
+            if !tame(x) || x.repr().exponent().unsigned_abs() > 300 {
                 return env.skip();
             }
             let mut sink = Sink { env, bytes: 0 };
@@ -526,7 +526,7 @@ where
         "tof" => {
             // conversion to primitive floats (kept apart from query: it goes through the base conversion)
             let x = &ww.p[a];
-            if !tame(x) || x.repr().exponent().abs() >= 1200 {
+            if !tame(x) || x.repr().exponent().unsigned_abs() >= 1200 {
                 return env.skip();
             }
             match form % 2 {
@@ -555,7 +555,7 @@ pub fn exec_fd(w: &mut World, op: &Op, rest: &str, env: &mut Env) {
     match rest {
         "todec" => {
             let x = &w.f[a];
-            if !tame(x) || x.repr().exponent().abs() > 600 || x.precision() == 0 && x.repr().exponent() < -300 {
+            if !tame(x) || x.repr().exponent().unsigned_abs() > 600 || x.precision() == 0 && x.repr().exponent() < -300 {
                 return env.skip();
             }
             let r = x.to_decimal();
@@ -565,7 +565,7 @@ pub fn exec_fd(w: &mut World, op: &Op, rest: &str, env: &mut Env) {
         }
         "tobin" => {
             let x = &w.d[a];
-            if !tame(x) || x.repr().exponent().abs() > 200 || x.precision() == 0 && x.repr().exponent() < 0 {
+            if !tame(x) || x.repr().exponent().unsigned_abs() > 200 || x.precision() == 0 && x.repr().exponent() < 0 {
                 return env.skip();
             }
             let r = x.to_binary();
@@ -576,7 +576,7 @@ pub fn exec_fd(w: &mut World, op: &Op, rest: &str, env: &mut Env) {
         "todecp" => {
             // base change with an explicit target precision (with_base_and_precision)
             let x = &w.f[a];
-            if !tame(x) || x.repr().exponent().abs() > 600 {
+            if !tame(x) || x.repr().exponent().unsigned_abs() > 600 {
                 return env.skip();
             }
             let r = x.clone().with_base_and_precision::<10>(op.n.max(0) as usize);
@@ -586,7 +586,7 @@ pub fn exec_fd(w: &mut World, op: &Op, rest: &str, env: &mut Env) {
         }
         "tobinp" => {
             let x = &w.d[a];
-            if !tame(x) || x.repr().exponent().abs() > 200 {
+            if !tame(x) || x.repr().exponent().unsigned_abs() > 200 {
                 return env.skip();
             }
             let r = x.clone().with_base_and_precision::<2>(op.n.max(0) as usize);
